@@ -188,6 +188,131 @@ func ruleT1(p *Prog) *RuleResult {
 			}
 		}
 	}
+	// helpers of the decoders that allocate or reslice on their behalf (extract-method refactoring): a size that
+	// comes in through a parameter is judged with the origins and the bound of the argument at the call site
+	type hctx struct {
+		g       *ssa.Function
+		call    *ssa.Call
+		origins map[int][]ssa.Value
+	}
+	var helpers []hctx
+	for _, f := range p.sourceFns() {
+		if !inScope(f) {
+			continue
+		}
+		for _, b := range f.Blocks {
+			for _, ins := range b.Instrs {
+				call, ok := ins.(*ssa.Call)
+				if !ok {
+					continue
+				}
+				g := call.Call.StaticCallee()
+				if g == nil || g.Blocks == nil || inScope(g) || fnPkgPath(g) != fnPkgPath(f) {
+					continue
+				}
+				hc := hctx{g: g, call: call, origins: map[int][]ssa.Value{}}
+				for ai, a := range call.Call.Args {
+					var os []ssa.Value
+					decodedOrigins(a, map[ssa.Value]bool{}, &os)
+					if len(os) > 0 {
+						hc.origins[ai] = os
+					}
+				}
+				if len(hc.origins) > 0 {
+					helpers = append(helpers, hc)
+				}
+			}
+		}
+	}
+	paramsOf := func(v ssa.Value, g *ssa.Function) []int {
+		var out []int
+		seen := map[ssa.Value]bool{}
+		var walk func(v ssa.Value)
+		walk = func(v ssa.Value) {
+			if v == nil || seen[v] {
+				return
+			}
+			seen[v] = true
+			switch x := v.(type) {
+			case *ssa.Parameter:
+				for i, prm := range g.Params {
+					if prm == x {
+						out = append(out, i)
+					}
+				}
+			case *ssa.Convert:
+				walk(x.X)
+			case *ssa.BinOp:
+				walk(x.X)
+				walk(x.Y)
+			case *ssa.Phi:
+				for _, e := range x.Edges {
+					walk(e)
+				}
+			}
+		}
+		walk(v)
+		return out
+	}
+	for _, hc := range helpers {
+		n := 0
+		for _, b := range hc.g.Blocks {
+			for _, ins := range b.Instrs {
+				switch x := ins.(type) {
+				case *ssa.MakeSlice:
+					var os []ssa.Value
+					for _, k := range append(paramsOf(x.Len, hc.g), paramsOf(x.Cap, hc.g)...) {
+						os = append(os, hc.origins[k]...)
+					}
+					if len(os) == 0 {
+						continue
+					}
+					n++
+					c := fmt.Sprintf("%s|make#%d (called from %s)", fname(hc.g), n, fname(hc.call.Parent()))
+					bad, note := "", ""
+					for _, o := range os {
+						if w := intWidth(basicKind(o.Type())); w > 0 && w <= 16 {
+							continue
+						}
+						if ok, why := boundedBefore(o, hc.call.Block()); !ok {
+							bad = why
+						} else {
+							note = why
+						}
+					}
+					if bad != "" {
+						res.bad(c, p.ipos(x), "allocation sized by a value decoded from the input (passed in by the caller): "+bad)
+					} else {
+						res.ok(c, p.ipos(x), note+" at the call site")
+					}
+				case *ssa.Slice:
+					if x.High == nil {
+						continue
+					}
+					fld, isField := loadedField(x.X)
+					if !isField {
+						continue
+					}
+					fromInput := false
+					for _, k := range paramsOf(x.High, hc.g) {
+						if len(hc.origins[k]) > 0 {
+							fromInput = true
+						}
+					}
+					if !fromInput {
+						continue
+					}
+					n++
+					c := fmt.Sprintf("%s|reslice %s#%d (called from %s)", fname(hc.g), fld.name, n, fname(hc.call.Parent()))
+					if capGuard(x, fld, b) {
+						res.ok(c, p.ipos(x), "guarded by cap("+fld.name+") >= the decoded length")
+					} else {
+						res.bad(c, p.ipos(x), "the slice "+fld.name+" is extended to a length decoded from the input without a dominating test of cap("+fld.name+") against that length")
+					}
+				}
+			}
+		}
+	}
 	// reslicing one of the receiver's own arrays up to a decoded length needs a capacity test on that very array
 	for _, f := range p.sourceFns() {
 		if !inScope(f) || len(f.Params) == 0 {
